@@ -92,6 +92,9 @@ func (r *Run) ExploreSchedules(scs []ScheduleScenario) {
 			}, func(o *vsched.Outcome, fp string) {
 				r.Eval()
 				k := "ok"
+				if o.Note != "" {
+					k = o.Note
+				}
 				if fp != "" {
 					k = fp
 				} else if o.Deadlock {
